@@ -20,6 +20,10 @@ from wormhole.timing import DebugTiming  # noqa: E402
 
 LEVEL = "exploration"
 COMPONENTS = ["a", "b.txt", "", ".", "..", "~", "-x", " ", "a\\b"]
+# names without any ASCII '/' or '.', spelled with compatibility look-alikes (FULLWIDTH SOLIDUS / FULL STOP, ONE / TWO DOT LEADER) or in a
+# decomposed form: they are ordinary file names; a receiver that folds them (NFKC, NFC) after its basename guard re-creates '..' and '/'
+LOOKALIKES = ["..\uff0f..\uff0fescaped", "\u2025\uff0f\u2025\uff0fx", "\uff0e\uff0e", "\uff0e\uff0e/a", "a/\uff0e\uff0e", "\uff0fabs\uff0fx",
+              "a\uff0fb", "\u2024\u2024", "\u2025", "\u2025\uff0fb.txt", "e\u0301.txt", "\uff5e", "..\uff0fa"]
 NEW = b"NEW-CONTENT-FROM-SENDER"
 OLD = b"old-content"
 SCRATCH = "/dev/shm" if os.path.isdir("/dev/shm") else None
@@ -37,6 +41,10 @@ def names(maxlen):
                     if s not in seen:
                         seen.add(s)
                         out.append(s)
+    for s in LOOKALIKES:
+        if s not in seen:
+            seen.add(s)
+            out.append(s)
     return out
 
 
